@@ -33,7 +33,7 @@ func c11Gen(r *driver.Rand, thorough bool) *driver.Plan {
 	if thorough && r.Chance(1, 4) {
 		take = r.Intn(40)
 	}
-	p := c11Base(stage, driver.Pick(r, caps...), take)
+	p := c11Base(stage, genCap(r), take)
 	p.Fn = r.Intn(60)
 	if stage == "Emit" {
 		p.IntervalMs = driver.Pick(r, 1, 10, 1000)
@@ -93,6 +93,12 @@ func c11Gen(r *driver.Rand, thorough bool) *driver.Plan {
 	genSched(r, p)
 	if p.Policy == driver.PolLowest || p.Policy == driver.PolRunBlock {
 		p.Budget = 300
+	}
+	// keep the run finite in steps, not only in virtual time: a timer-based
+	// cancel must not be thousands of ticks away
+	if fr := planInterval(p); stage == "Emit" && p.CancelMs > 0 && fr > 0 && time.Duration(p.CancelMs)*time.Millisecond/fr > 1500 {
+		p.CancelMs = 0
+		p.CancelStep = r.Intn(20 + 10*take)
 	}
 	if !c11Valid(p) {
 		p.CancelStep = r.Intn(40)
